@@ -101,9 +101,21 @@ class CandleManager:
         if self.name == DEFAULT_CANDLES:
             self.candles.extend(candles_)
         else:
-            self.candles.extend(deepcopy(candles_))
+            self.candles.extend(self._raw_copies(candles_))
 
         self._tasks()
+
+    @staticmethod
+    def _raw_copies(candles: List[Candle]) -> List[Candle]:
+        """Deep copies of the candles with any candlestick conversion undone, Candle objects
+        may have already been converted in place by another manager sharing them"""
+        copies = deepcopy(candles)
+        for candle in copies:
+            if candle.tag:
+                candle.recover_clean_values()
+                candle.clean_values = {}
+                candle.reset_candle()
+        return copies
 
     def trim_candles(self):
         if self.candles_lifespan is None or not self.candles:
